@@ -1,9 +1,13 @@
 """Facts for C01 (scheduler counters == recomputation from job states).
 
- * `interpret`      concrete execution of a stored-routine body over an extracted syntax tree for ONE point of a finite input domain
-                    (variables, SET, IF/ELSEIF/ELSE, labelled blocks + LEAVE, SIGNAL), forking where a guard depends on something
-                    outside the domain; records the amounts every INSERT into a table of interest would apply.  Nothing is sent to a
-                    database; nothing of the repository is executed.
+ * `linear_in`      linear normal form  a + b*C  of an extracted SQL expression in one symbolic quantity C (cores_mcpu): the amount columns
+                    are compared coefficient-wise, never by plugging a sample value in for C.
+ * `PathEnum`       abstract execution of a stored-routine body over an extracted syntax tree for one valuation of a FINITE ABSTRACT domain
+                    (enum members / boolean flags of the atoms the routine tests; the caller enumerates the domain exhaustively).  Everything
+                    outside that domain -- table contents, RAND(), cores, user names -- is the symbolic value UNKNOWN; guards are evaluated
+                    three-valued and an undecidable guard is an explicit case split.  The result is, per path, WHICH statements execute
+                    (control-flow fact); amounts are not computed.  No sample inputs, nothing is sent to a database, nothing of the
+                    repository is executed.
  * `path_literals`  effective path condition of a statement in a procedure (enclosing IF predicates and the negation of earlier
                     early exits) as a set of literals, for "these statements run under the same condition" obligations.
  * `guard_dominates` Python side: a call is dominated by the "row was found" outcome of a guard query.
@@ -22,19 +26,61 @@ from .sqleval import UNKNOWN, Unbound, ev, may
 
 
 # --------------------------------------------------------------------------------------------------------------
-# concrete interpreter
+# linear normal form in one symbolic quantity
+# --------------------------------------------------------------------------------------------------------------
+def _mul(x: Optional[N], y: Optional[N]) -> Optional[N]:
+    if x is None or y is None:
+        return None
+    return N('bin', op='*', left=x, right=y)
+
+
+def _add(x: Optional[N], y: Optional[N], op: str = '+') -> Optional[N]:
+    if y is None:
+        return x
+    if x is None:
+        return y if op == '+' else N('un', op='-', arg=y)
+    return N('bin', op=op, left=x, right=y)
+
+
+def linear_in(e: N, is_c: Callable[[N], bool]) -> Optional[Tuple[Optional[N], Optional[N]]]:
+    """e == a + b*C with a, b free of C  ->  (a, b)  (None stands for 0);  None when e is not (recognisably) linear in C."""
+    if is_c(e):
+        return (None, N('lit', value=1))
+    if not any(is_c(n) for n in e.walk()):
+        return (e, None)
+    if e.kind == 'un' and e.op == '-':
+        r = linear_in(e.arg, is_c)
+        if r is None:
+            return None
+        return (_add(None, r[0], '-'), _add(None, r[1], '-'))
+    if e.kind == 'bin' and e.op in ('+', '-'):
+        l, r = linear_in(e.left, is_c), linear_in(e.right, is_c)
+        if l is None or r is None:
+            return None
+        return (_add(l[0], r[0], e.op), _add(l[1], r[1], e.op))
+    if e.kind == 'bin' and e.op == '*':
+        l, r = linear_in(e.left, is_c), linear_in(e.right, is_c)
+        if l is None or r is None or (l[1] is not None and r[1] is not None):
+            return None
+        return (_mul(l[0], r[0]), _add(_mul(l[0], r[1]), _mul(l[1], r[0])))
+    if e.kind == 'cast':
+        return linear_in(e.arg, is_c)
+    return None
+
+
+# --------------------------------------------------------------------------------------------------------------
+# abstract path enumeration
 # --------------------------------------------------------------------------------------------------------------
 class _Unk(Exception):
     pass
 
 
 class Effect:
-    """One executed INSERT into a table of interest: column -> amount (python value or UNKNOWN)."""
+    """One executed INSERT into a table of interest (which statement, which table -- not what amount)."""
 
-    def __init__(self, st: N, table: str, amounts: Dict[str, Any]):
+    def __init__(self, st: N, table: str):
         self.st = st
         self.table = table
-        self.amounts = amounts
 
 
 class Run:
@@ -52,26 +98,14 @@ class Run:
         r.aborted = self.aborted
         return r
 
-    def net(self, table: str, col: str) -> Any:
-        total: Any = 0
-        for e in self.effects:
-            if e.table != table or col not in e.amounts:
-                continue
-            v = e.amounts[col]
-            if v is UNKNOWN or total is UNKNOWN:
-                total = UNKNOWN
-            else:
-                total = total + (0 if v is None else int(v))
-        return total
-
-    def executed(self, st: N) -> bool:
-        return any(e.st is st for e in self.effects)
+    def times_executed(self, st: N) -> int:
+        return sum(1 for e in self.effects if e.st is st)
 
 
-class Interp:
-    """Executes a routine body for one domain point.
+class PathEnum:
+    """Enumerates the paths of a routine body for one valuation of the abstract domain.
 
-    atoms(name)   value of a non-variable column reference such as `old.state` (lower-cased dotted text) or UNKNOWN
+    atoms(name)   abstract value (enum member / flag) of a non-variable column reference such as `old.state` (lower-cased dotted text), or UNKNOWN
     into_hook(st) values selected by a `SELECT .. INTO` statement (list, one per target) or None when unknown
     tables        lower-cased names of the tables whose INSERTs are recorded; UPDATE/DELETE on them is not analysable here
     """
@@ -208,15 +242,14 @@ class Interp:
         if k == 'insert':
             tbl = st.table.lower()
             if tbl in self.tables:
-                ins, _dup, _uv = sr.insert_colmap(st)
-                run.effects.append(Effect(st, tbl, {c: self.value(e, run) for c, e in ins.items()}))
+                run.effects.append(Effect(st, tbl))
             return [(run, 'normal')]
         if k in ('update', 'delete'):
             for t, _ in sf.written_tables(st):
                 if t.lower() in self.tables:
                     raise AnalysisError(f'{self.what}: {k.upper()} of {t} is not a recognised counter maintenance shape')
             return [(run, 'normal')]
-        raise AnalysisError(f'{self.what}: statement kind `{k}` is outside what the counter interpreter models ({text(st)[:60]})')
+        raise AnalysisError(f'{self.what}: statement kind `{k}` is outside what the path enumeration models ({text(st)[:60]})')
 
 
 # --------------------------------------------------------------------------------------------------------------
